@@ -416,7 +416,10 @@ func (rc *LRURevisionCache) Remove(ctx context.Context, docID, versionString str
 func (rc *LRURevisionCache) removeValueForFailedLoad(value *revCacheValue) {
 	// Mark removed before acquiring the lock so any concurrent CAS-based increment sees the
 	// terminal state and skips, even if it races with this function.
-	value.memState.Store(memStateRemoved)
+	if value.memState.Swap(memStateRemoved) == memStateSized {
+		// a concurrent Put on the same value already accounted its bytes
+		rc.memoryController.decrementBytesCount(value.getItemBytes())
+	}
 	rc.lock.Lock()
 	defer rc.lock.Unlock()
 	var itemRemoved bool
